@@ -202,6 +202,28 @@ def newEpoch (idx duration : Int) : Nat × Nat :=
 def svEpoch (validity duration : Int) : Option (Nat × Nat) :=
   if duration = 0 then none else some (newEpoch (Int.tdiv validity duration) duration)
 
+/-- `drkey.DeriveSV` with the KDF (PBKDF2-HMAC-SHA256, salt "Derive DRKey Key", 1000 iterations,
+    16 bytes) as a parameter -/
+def deriveSV (kdf : Bytes → Key) (secret : Bytes) (proto epochBegin epochEnd : Nat) : Option Key :=
+  (svInput secret proto epochBegin epochEnd).map kdf
+
+inductive SVOut
+  | divZero                              -- key duration < 1 s: integer division by zero
+  | emptySecret                          -- "Invalid zero sized secret"
+  | sv (epoch : Nat × Nat) (key : Key)
+deriving DecidableEq, Repr
+
+/-- `secretValueBackend.getSecretValue` when the store has no entry: epoch from the validity time,
+    then `DeriveSV` (16-bit protocol id) -/
+def getSecretValue (kdf : Bytes → Key) (secret : Bytes) (duration validity : Int) (proto : Nat) :
+    SVOut :=
+  match svEpoch validity duration with
+  | none => .divZero
+  | some ep =>
+    match deriveSV kdf secret proto ep.1 ep.2 with
+    | none => .emptySecret
+    | some k => .sv ep k
+
 /-! ## acceptance window (`FakeProvider.GetKeyWithinAcceptanceWindow`) -/
 
 /-- `drkey.GRACE_PERIOD` in nanoseconds -/
